@@ -442,7 +442,7 @@ def r3_loops(body, loops, log):
     for key, inv in loops.items():
         kind, _, idx = key.partition(':')
         idx = int(idx)
-        if kind == 'for':
+        if kind in ('for', 'forw', 'forwx'):
             if idx >= len(fors):
                 raise LostAnchor('R3: for-loop #%d not found' % idx)
             m = fors[idx]
@@ -477,6 +477,19 @@ def r3_loops(body, loops, log):
                         break
                 j += 1
             expr = body[in_pos + 2:j].strip()
+            if kind in ('forw', 'forwx'):
+                # R15: `['l:] for PAT in E {` over a &Vec / slice  ->  indexed while loop (Verus for-loops do not support `continue`)
+                pat = body[m.end():in_pos].strip()
+                lm = re.search(r"('\w+)\s*:\s*$", body[:m.start()])
+                start = lm.start() if lm else m.start()
+                label = (lm.group(1) + ': ') if lm else ''
+                sv, iv = 'verif_s%d' % idx, 'verif_i%d' % idx
+                iso = '#[verifier::loop_isolation(false)]\n' if kind == 'forwx' else ''   # forwx: a labelled `continue` of an outer loop crosses this loop
+                head = ('let %s = %s;\nlet mut %s: usize = 0;\n%s%swhile %s < %s.len()\n%s\n{\nlet %s = &%s[%s];\n%s = %s + 1;\n'
+                        % (sv, expr, iv, iso, label, iv, sv, inv.rstrip(), pat, sv, iv, iv, iv))
+                edits.append((start, j + 1, head))
+                log.append('R15 for-loop #%d: `%sfor %s in %s` -> indexed while over %s (Verus for-loops do not support `continue`)' % (idx, label, pat, expr, sv))
+                continue
             edits.append((in_pos + 2, j, ' it: %s\n%s\n' % (expr, inv.rstrip())))
             log.append('R3 for-loop #%d: `in %s` -> `in it: %s` + invariant' % (idx, expr, expr))
         elif kind in ('while', 'loop'):
@@ -504,6 +517,31 @@ def r3_loops(body, loops, log):
     for (a, b, t) in edits:
         body = body[:a] + t + body[b:]
     return body
+
+
+def _in_nested_loop(inner, imask, pos):
+    """is `pos` inside the body of a for / while / loop nested in `inner`?"""
+    for m in re.finditer(r'\b(for|while|loop)\b', inner):
+        if not imask[m.start()] or m.start() >= pos:
+            continue
+        j = m.end()
+        depth = 0
+        while j < len(inner):
+            if imask[j]:
+                c = inner[j]
+                if c in '([':
+                    depth += 1
+                elif c in ')]':
+                    depth -= 1
+                elif c == '{' and depth == 0:
+                    break
+            j += 1
+        if j >= len(inner):
+            continue
+        close = match_close(inner, imask, j)
+        if j < pos < close:
+            return True
+    return False
 
 
 def r4_never_loop(body, log, spec_text=''):
@@ -582,6 +620,8 @@ def r4_never_loop(body, log, spec_text=''):
             last = j + 1
             count += 1
             continue
+        if not expr and _in_nested_loop(inner, imask, mm.start()):
+            continue    # plain `break;` of a nested for / while loop
         if not expr or expr.startswith("'"):
             raise LostAnchor('R4 precondition: `break` without value (or labelled) inside never-loop')
         out.append(inner[last:mm.start()])
@@ -640,6 +680,10 @@ def insert_proofs(body, proofs, log):
             b = a + len(anchor)
         if where == 'before':
             body = body[:a] + text + '\n' + body[a:]
+        elif where == 'after_first_token':
+            # the anchor starts with a token that closes the preceding construct (`}`): insert right after that token
+            k = a + len(anchor.lstrip('~').split()[0])
+            body = body[:k] + '\n' + text + '\n' + body[k:]
         else:
             body = body[:b] + '\n' + text + '\n' + body[b:]
         log.append('proof block inserted %s %r' % (where, anchor[:40]))
